@@ -400,13 +400,29 @@ func runPdAlloc(c *corr.Ctx) error {
 	if err != nil {
 		return err
 	}
+	// A start that cannot be observed (process too slow to come up under load, RPC timeout) is not an
+	// observation of different behaviour: it is retried and, failing that, skipped and counted.
+	observed := 0
 	for _, bd := range bootDescs() {
-		bc, err := pdBootCase(bin, base, bd)
-		if err != nil {
-			return err
+		var bc corr.Case
+		var err error
+		for attempt := 0; attempt < 3; attempt++ {
+			if bc, err = pdBootCase(bin, base, bd); err == nil {
+				break
+			}
+			c.Count("command_restart_retry")
 		}
+		if err != nil {
+			c.Count("command_restart_unobserved")
+			c.Meta("command_restart_last_error", err.Error())
+			continue
+		}
+		observed++
 		c.Count("command_restart")
 		c.Emit(bc)
+	}
+	if observed == 0 {
+		return fmt.Errorf("pdalloc: no restart through the real command could be observed")
 	}
 	os.Remove(bin)
 	var ferr error
@@ -446,7 +462,7 @@ func runPdAlloc(c *corr.Ctx) error {
 			return ferr
 		}
 	}
-	for i := 0; i < c.Scale(100, 2000); i++ {
+	for i := 0; i < c.Scale(100, 1000); i++ {
 		n := 2 + c.Rng.Intn(2)
 		d := pdDesc{IDStart: 1, TSStart: 1, Reqs: genPdReqs(c, n), Fail: make([]bool, n), IDStart2: 1, TSStart2: 1, Reqs2: genPdReqs(c, 1+c.Rng.Intn(2)),
 			Schedule: sched.RandomBlocks(c.Rng, n, 2+c.Rng.Intn(6*n), 4), Drain: c.Rng.Intn(3) > 0}
@@ -457,7 +473,7 @@ func runPdAlloc(c *corr.Ctx) error {
 		}
 	}
 	// a request is granted at persistMu.Lock while another one holds the mutex
-	for i := 0; i < c.Scale(150, 2500); i++ {
+	for i := 0; i < c.Scale(150, 1500); i++ {
 		n := 2 + c.Rng.Intn(2)
 		d := pdDesc{IDStart: 1, TSStart: 1, Reqs: genPdReqs(c, n), IDStart2: 1, TSStart2: 1, Reqs2: genPdReqs(c, 1+c.Rng.Intn(2))}
 		for k := 0; k < 2+c.Rng.Intn(3); k++ {
@@ -477,7 +493,7 @@ func runPdAlloc(c *corr.Ctx) error {
 		}
 	}
 	starts := []uint64{0, 1, 1, 1, 2, 5, 100}
-	for i := 0; i < c.Scale(400, 8000); i++ {
+	for i := 0; i < c.Scale(400, 5000); i++ {
 		n := 2 + c.Rng.Intn(2)
 		d := pdDesc{IDStart: corr.Pick(c.Rng, starts), TSStart: corr.Pick(c.Rng, starts), Reqs: genPdReqs(c, n),
 			Schedule: sched.RandomBlocks(c.Rng, n, 2+c.Rng.Intn(5*n), 4), Drain: c.Rng.Intn(4) == 0,
